@@ -71,11 +71,15 @@ def index_sets(n, rng, top):
     return {"pairs": pairs, "triplets": trip, "quartets": quad, "query": query}
 
 
-def observe(md, t, ref_t, idx, job, names):
+def observe(md, make_t, make_ref, idx, job, names):
+    """Every observable gets a FRESH Trajectory: md.rmsd centres its arguments in place, so re-using one object
+    would hand already-centred coordinates to everything computed after it."""
     out = {}
-    periodic = t.unitcell_vectors is not None
     cutoff = job.get("cutoff", 0.5)
     for name in names:
+        t = make_t()
+        ref_t = make_ref()
+        periodic = t.unitcell_vectors is not None
         try:
             if name == "distances":
                 v = fl(md.compute_distances(t, idx["pairs"], periodic=periodic))
@@ -174,12 +178,11 @@ def main():
                 extra["outside"] = [int(i) for i in np.nonzero(np.any((fr < -1e-9) | (fr >= 1 + 1e-9), axis=1))[0]]
             else:
                 raise RuntimeError("unknown variant " + kind)
-            t = make(x)
-            rt = make(xr)
             x32 = x.astype(np.float32).astype(np.float64)
             variants.append(dict(extra, maxabs=float(np.abs(x32).max()),
                                  exact=bool(np.all(x32 == x)),
-                                 obs=observe(md, t, rt, idx, job, job["observables"])))
+                                 obs=observe(md, (lambda x=x: make(x)), (lambda xr=xr: make(xr)), idx, job,
+                                             job["observables"])))
         res.append({"n_atoms": n, "box_seen": None if seen is None else fl(seen),
                     "index_sets": {k: np.asarray(a).tolist() for k, a in idx.items()},
                     "xyz0": fl(xyz0.astype(np.float32)), "ref0": fl(ref0.astype(np.float32)),
